@@ -140,4 +140,12 @@ inductive DerivesStmt : List (Tok S) → Stmt S → Prop
       Derives .expr c₂ body → DerivesStmt (c₁ ++ eq :: c₂) (.define name ⟨ps⟩ body)
   | expr {c e} : Derives .expr c e → DerivesStmt c (.expr e)
 
+/-- a program: statements, each terminated by a delimiter; extra delimiters anywhere between
+    statements are ignored:   program ::= ( delim | stmt delim )*                         -/
+inductive DerivesProgram : List (Tok S) → List (Stmt S) → Prop
+  | nil : DerivesProgram [] []
+  | skip {d : Tok S} {ts ss} : d.isDelim → DerivesProgram ts ss → DerivesProgram (d :: ts) ss
+  | stmt {c s ts ss} {d : Tok S} : DerivesStmt c s → d.isDelim → DerivesProgram ts ss →
+      DerivesProgram (c ++ d :: ts) (s :: ss)
+
 end Calc
